@@ -9,7 +9,8 @@ ASSUME = [
     "arrival order is forced by feeding one parent message at a time and waiting for the node's timer Stop (the deferred last statement of JoinNode.doMessage / UnionNode.Point|BufferedBatch) before the next; messages never overlap inside the node in these runs",
     "closing a single parent has no effect on the receiver (multiConsumer calls nothing until all parents have ended); stream parents share one source and end together at StopTask, batch parents are closed individually at scheduled positions",
     "join.on() is exercised in its documented shape only: one less specific parent, one more specific parent, at most one message per (parent, group, rounded time)",
-    "barrier and delete-group messages are not generated",
+    "batch parents deliver either whole buffered batches or (query|where) unbuffered begin/point/end sequences; the latter are interleaved message by message through the edge.emit gate and, on the exported multiConsumer, through scheduled edges",
+    "barrier messages only into joins, delete-group messages are not generated",
     "TLC fingerprint collisions are negligible; the libflux link stub is never executed",
 ]
 
@@ -53,6 +54,7 @@ def run(sc, tier, seed):
         ("JoinMC.tla", "Join_%s.cfg" % t),
         ("JoinMC.tla", "JoinOn_%s.cfg" % t),
         ("JoinMC.tla", "JoinBarrier_%s.cfg" % t),
+        ("MultiConsumerMC.tla", "MultiConsumer_%s.cfg" % t),
     ]
     # the model runs are independent: run them side by side with the drivers (2 at a time, 4 workers each)
     pool = concurrent.futures.ThreadPoolExecutor(max_workers=2)
@@ -76,6 +78,13 @@ def _rest(sc, tier, seed, R, futs, quick, par, vheap):
         val = V.validate_traces(sc, SPEC, "CircularQueueTrace.tla", "CircularQueueTrace.cfg", fs, parallel=par, env_extra=vheap)
         R.states += val["states"]
         R.handle_validation(val, "CircularQueue observation (Len/Peek) not explained by CircularQueue.tla")
+
+    # ---- multiConsumer at message granularity: exported, scheduled parent edges, every begin/point/end interleaving ----
+    outm, metam = V.run_driver(sc, "c12mc", tier, seed)
+    R.add_meta(metam)
+    valm = V.validate_traces(sc, SPEC, "MultiConsumerTrace.tla", "MultiConsumerTrace.cfg", metam["trace_files"], parallel=2 if quick else par, env_extra=vheap)
+    R.states += valm["states"]
+    R.handle_validation(valm, "multiConsumer handed the receiver something else than the parents' batches")
 
     # ---- B3: real join/union tasks under forced arrival orders ----
     out2, meta2 = V.run_driver(sc, "c12", tier, seed)
@@ -111,6 +120,8 @@ def replay(sc, path):
     first = open(seg).readline()
     if '"init"' in first:
         val = V.validate_traces(sc, SPEC, "CircularQueueTrace.tla", "CircularQueueTrace.cfg", [seg])
+    elif '"flow"' not in first:
+        val = V.validate_traces(sc, SPEC, "MultiConsumerTrace.tla", "MultiConsumerTrace.cfg", [seg])
     else:
         val = V.validate_traces(sc, SPEC, "JoinUnionTrace.tla", "JoinUnionTrace.cfg", [seg])
     if val["accepted"]:
